@@ -246,7 +246,8 @@ class Fxp():
             elif _raw_val.dtype.kind in 'fc' or (_raw_val.dtype == object and all(isinstance(v, (int, float, complex, utils.Fraction, np.integer, np.floating, np.complexfloating)) for v in _raw_val.ravel().tolist())):
                 # (raw values that carry fraction bits - floats, exact quotients: the results of the operators when fraction bits are given up)
                 val = np.array(_raw_val * utils.Fraction(1, 2**(n_frac - self.n_frac)), dtype=object) if _raw_val.dtype == object \
-                    else _raw_val.astype(np.complex128 if _raw_val.dtype.kind == 'c' else np.float64) * 2.0**(self.n_frac - n_frac)   # (not in a narrow carrier's own type)
+                    else (_raw_val if _raw_val.dtype.itemsize >= (16 if _raw_val.dtype.kind == 'c' else 8) else _raw_val.astype(np.complex128 if _raw_val.dtype.kind == 'c' else np.float64)) \
+                        * 2.0**(self.n_frac - n_frac)   # (not in a narrow carrier's own type; an extended precision carrier keeps its own)
         self.set_val(val, raw=raw)
 
         if dtype is not None and complex_flag:
